@@ -2,6 +2,7 @@ import Verif.Model.Names
 import Verif.Model.RemoveUnused
 import Verif.Model.SortRef
 import Verif.Spec.Flat
+import Verif.Model.Replace
 
 /- driver-side glue for the `uniqify`, `removeUnused` and `sort` streams (no theorem depends on it) -/
 
@@ -47,5 +48,20 @@ def sort (inp : J) : J :=
   let keys := inp.getStrs "keys"
   .obj [("depthFirst", mkStrs (SortRef.depthFirst keys)), ("topmostFirst", mkStrs (SortRef.topmostFirst keys)),
         ("parts", .arr (keys.map fun k => mkStrs (SortRef.keyParts k)))]
+
+def replace (inp : J) : J :=
+  let d := (inp.get? "doc").getD .null
+  let enc := fun (o : Outcome J) => match o with
+    | .ok v => J.obj [("ok", v)]
+    | .err e => .obj [("err", .str e)]
+    | .panic w => .obj [("panic", .str w)]
+    | .outOfFuel => .obj [("timeout", .bool true)]
+  .arr ((inp.getArr "ops").map fun op =>
+    let key := op.getStr "key"
+    match op.getStr "prim" with
+    | "updateRef" => enc (Replace.updateRef d key (op.getStr "ref"))
+    | "rewriteSchemaToRef" => enc (Replace.rewriteSchemaToRef d key (op.getStr "ref"))
+    | "updateRefWithSchema" => enc (Replace.updateRefWithSchema d key ((op.get? "schema").getD .null))
+    | _ => .obj [("err", .str "unknown primitive")])
 
 end UnitsDriver
